@@ -234,6 +234,14 @@ func theoryAxioms(roots []*Term) []*Term {
 						emit(Eq(t, Select(s.Args[0], Add(s.Args[1], i))))
 					}
 				}
+			case "ssub":
+				s0, lo, hi := t.Args[0], t.Args[1], t.Args[2]
+				if s0.Kind == KApp && s0.Op == "scat" {
+					a, b := s0.Args[0], s0.Args[1]
+					emit(Implies(And(Eq(lo, IntLit(0)), Eq(hi, SLen(a))), Eq(t, a)))
+					emit(Implies(And(Eq(lo, SLen(a)), Eq(hi, Add(SLen(a), SLen(b)))), Eq(t, b)))
+				}
+				emit(Implies(And(Eq(lo, IntLit(0)), Eq(hi, SLen(s0))), Eq(t, s0)))
 			case "sbyte":
 				emit(Eq(SAt(t, IntLit(0)), t.Args[0]))
 			case "srune":
@@ -250,7 +258,7 @@ func theoryAxioms(roots []*Term) []*Term {
 				_ = b
 			case "shasprefix":
 				s, p := t.Args[0], t.Args[1]
-				emit(Implies(t, And(Le(SLen(p), SLen(s)), Eq(SSub(s, IntLit(0), SLen(p)), p))))
+				emit(Eq(t, And(Le(SLen(p), SLen(s)), Eq(SSub(s, IntLit(0), SLen(p)), p))))
 				if v, ok := litValue(p); ok && len(v) <= 8 {
 					var cs []*Term
 					for i := 0; i < len(v); i++ {
